@@ -35,6 +35,7 @@ import traceback
 from pathlib import Path
 
 import backends_fn as FN
+import backends_typed as BT
 import containers as C
 import gen
 import vcore
@@ -367,8 +368,11 @@ def apply_layout(aw: dict, lay: dict):
     (`truncating`), only the correspondence with the model."""
     rng = random.Random(lay["typing_seed"])
     p = lay["p_typed"]
+    force = lay.get("force_typing") or {}
 
     def choose(text, is_header):
+        if not is_header and text in force:
+            return force[text]
         ts = C.typings(text)
         if is_header:
             ts = [t for t in ts if t in ("text", "padded", "nbsp_padded", "none", "blank")]
@@ -817,6 +821,16 @@ def directed_cases() -> list[dict]:
                                ["decimal", "d", "0.3333333333333333", "-33.86785123456789", "0.30000000000000004"]]
     for seed in range(4):
         out.append(mk(copy.deepcopy(aw), {"p_typed": 1.0, "typing_seed": seed}, stem="my form-1"))
+    # one column holding typed cells that are EQUAL as Python values but read differently: True == 1 == 1.0,
+    # False == 0 == 0.0 (a reader that keys anything on the raw cell value confuses them); both orders,
+    # numbers as int and as integral float, booleans as bool; the text containers spell TRUE / 1 / FALSE / 0
+    for order, nums in ((["TRUE", "1", "FALSE", "0"], ("int", "ifloat")), (["1", "TRUE", "0", "FALSE"], ("int", "ifloat")),
+                        (["0", "FALSE", "TRUE", "1", "1", "TRUE"], ("ifloat",))):
+        for num in nums:
+            aw = copy.deepcopy(base)
+            aw["sheets"][0]["header"] += ["default"]
+            aw["sheets"][0]["rows"] = [["text", f"q{i}", f"Q{i}", v] for i, v in enumerate(order)]
+            out.append(mk(aw, {"force_typing": {"TRUE": "bool", "FALSE": "bool", "1": num, "0": num}}, stem="bool_vs_number"))
     return out
 
 
@@ -851,6 +865,12 @@ def explore(ctx, factor, bs):
         for i in range(n):
             case = gen_case(rng, knobs)
             case_run(ctx, case, scratch, full=(i % ctx.pick(20, 10) == 0))
+        # typed cells of both backends (bool / number / date / time / error), after the older streams so that
+        # their generated inputs are unchanged
+        import time as _time
+        _t0 = _time.time()
+        BT.explore_typed(ctx, rng, ctx.pick(250, 4000) * factor, ctx.pick(60, 800) * factor, directed=(factor == 1))
+        ctx.notes["typed_stream_s"] = round(ctx.notes.get("typed_stream_s", 0) + _time.time() - _t0, 2)
         uns = sum(v for k, v in ctx.dist.items() if k.endswith(":unsupported"))
         fn = sum(v for k, v in ctx.dist.items() if k.startswith(("fn:", "pipe:")) and not k.startswith("fn:cell_text"))
         ctx.notes["fragment"] = {
